@@ -43,6 +43,12 @@ FILES = {
     "solver/src/one_node_per_tour.rs": ["C06", "C08"],
     "solver/src/objective.rs": ["C08", "C04"],
     "server/src/lib.rs": ["C16", "C08", "C05"],
+    "solution/src/train_formation.rs": ["C13", "C10", "C03"],
+    "solution/src/vehicle.rs": ["C10", "C13"],
+    "model/src/locations.rs": ["C17", "C01"],
+    "model/src/base_types/distance.rs": ["C09", "C04", "C17"],
+    "model/src/network/depot.rs": ["C17", "C02"],
+    "model/src/vehicle_types.rs": ["C17", "C07"],
 }
 
 OPS = [
@@ -69,7 +75,14 @@ OPS = [
     (re.compile(r"\.all\("), [".any("]),
     (re.compile(r"\.\.="), [".."]),
     (re.compile(r"\bcontinue;"), ["break;"]),
+    # second pass (OPMUT_PASS=2): arithmetic and negation
+    (re.compile(r" \+ (?![01]\b)"), [" - "]),
+    (re.compile(r" - (?![01]\b)"), [" + "]),
+    (re.compile(r" \* "), [" / "]),
+    (re.compile(r"\bif !"), ["if "]),
+    (re.compile(r"\.filter\(\|[^|]*\| !"), None),
 ]
+FIRST_PASS_OPS = 23
 
 
 def sh(cmd, timeout=3600, cwd=None, env=None):
@@ -105,7 +118,12 @@ def sites():
             code = l.split("//")[0]
             if "println!" in code or "format!" in code or "panic!" in code or "assert" in code or "expect(" in code:
                 continue
-            for rx, reps in OPS:
+            ops = OPS[FIRST_PASS_OPS:] if os.environ.get("OPMUT_PASS") == "2" else OPS[:FIRST_PASS_OPS]
+            for rx, reps in ops:
+                if reps is None:
+                    for m in rx.finditer(code):
+                        out.append((f, i, m.end() - 1, m.end(), ""))
+                    continue
                 for m in rx.finditer(code):
                     # generics / arrows are not comparisons
                     if rx.pattern in (" < ", " > ") and ("->" in code or "fn " in code or "impl" in code or "<'" in code):
